@@ -91,6 +91,7 @@ WITNESS = {
     "F04-11": ["if x: import a, b\n"],
 }
 FIXED_WITNESS = {
+    "F04-17": ['"""doc"""\\\n\nprint(os)\n', "from __future__ import annotations \\\n   # comment\nprint(os)\n"],
     "F04-3": ["é = 1\nprint(é)\n"],
     "F04-1": ["if 1/0:\n    print(1)\n", "if 1 + 'a':\n    print(1)\n", "if {[1]: 2}:\n    print(1)\n",
               "for i in range(int(1e308 * 10)):\n    print(i)\n", "if 1 in 2:\n    print(1)\n"],
@@ -141,6 +142,58 @@ def run_one(mods, src: str, opts=None) -> dict | None:
                 "frames": frames[-8:], "input": src}
 
 
+# ---- round 5: the constant kinds admitted as bounds by symbolic_math.simplify_boolean_expressions (T04.9) -----------
+
+KIND_VALUES = {      # kind -> (constructor of DriverModel.bkind, sample values; the first two are an ordered pair of literals)
+    "int": ("BkInt", [3, 7, -1, 0, 10 ** 30]), "float": ("BkFloat", [2.5, 7.25, float("nan"), float("inf"), -0.0]),
+    "bool": ("BkBool", [False, True]), "str": ("BkStr", ["a", "b", "", "\u00e9"]), "bytes": ("BkBytes", [b"a", b"b", b""]),
+    "none": ("BkNone", [None]), "tuple": ("BkTuple", [(1, 2), (1, 3), (), (1, "a"), ("a",)]),
+    "complex": ("BkComplex", [1j, 2j, 1 + 0j]),
+}
+
+
+def kind_guard_cases(mods) -> tuple[list[dict], list[str]]:
+    """(observations, Coq cases).  AdmitCase: does a constant of kind k take part in the redundant-bound analysis?  Observed on
+    the real rule with two bounds of the SAME kind on one operand (`n >= c1 and n >= c2`, `n > c or n >= c`): the text
+    changes (or the rule raises inside the analysis) iff the kind is admitted.  OrderCase: `a < b` on CPython for all the
+    sample values of two kinds = DriverModel.orderable (the reference semantics of T04.9)."""
+    rule = mods["symbolic_math"].simplify_boolean_expressions
+    obs, coq = [], []
+    for kind, (ctor, vals) in KIND_VALUES.items():
+        lits = [repr(v) for v in vals if v == v and v not in (float("inf"),)][:2]
+        c1, c2 = lits[0], lits[-1]
+        srcs = [f"if n >= {c1} and n >= {c2}:\n    print(n)\n", f"if n > {c1} or n >= {c1}:\n    print(n)\n",
+                f"if n < {c2} and n <= {c2} and n < {c1}:\n    print(n)\n"]
+        if c1 == c2:       # a kind with one value (None): identical operands are dropped by another mechanism; use < vs <= only
+            srcs = [srcs[1], f"if n < {c1} and n <= {c1}:\n    print(n)\n"]
+        took_part, detail = False, []
+        for src in srcs:
+            mods["core"].parse.cache_clear()
+            try:
+                with common.quiet():
+                    out = rule(src)
+                detail.append(out)
+                took_part |= out != src
+            except Exception as e:  # noqa
+                detail.append(f"<raised {type(e).__name__}: {e}>")
+                took_part = True
+        obs.append({"case": "admitted", "kind": kind, "sources": srcs, "took_part": took_part, "outputs": detail})
+        coq.append(f"AdmitCase {ctor} {str(took_part).lower()}")
+    for k1, (c1, v1) in KIND_VALUES.items():
+        for k2, (c2, v2) in KIND_VALUES.items():
+            defined = True
+            for a in v1:
+                for b in v2:
+                    for f in (lambda x, y: x < y, lambda x, y: x <= y, lambda x, y: x > y, lambda x, y: x >= y):
+                        try:
+                            f(a, b)
+                        except TypeError:
+                            defined = False
+            obs.append({"case": "orderable", "kinds": [k1, k2], "always_defined": defined})
+            coq.append(f"OrderCase {c1} {c2} {str(defined).lower()}")
+    return obs, coq
+
+
 def check(run: common.Run):
     wd = common.workdir(PID)
     t_start = time.time()
@@ -169,7 +222,9 @@ def check(run: common.Run):
         failing_inputs.append({"kind": "property-oracle", "what": b["problem"], "case": b})
     hist["early-return cases"] = len(drv.early_return_cases()) * 4
     wsrc = [st for st in sw.EOF_STATEMENTS] + [c.rstrip("\n") for _, c in drv.early_return_cases()] + \
-        [w for w in FIXED_WITNESS["F04-6"]] + ["x = 1\r", "   ", "\t", "a = 1\nprint(a)\n\n\n    "]
+        [w for w in FIXED_WITNESS["F04-6"]] + ["x = 1\r", "   ", "\t", "a = 1\nprint(a)\n\n\n    "] + \
+        ["x = 1 \\\n   ", "import sys\nprint(sys.argv) \\\n\t", '"""doc""" \\\n ', "print(1) \\\r\n   ", "# comment \\",
+         "x = 'a\\\nb'", "print(1) \\\n\n  "]
     n_wrap, wbad = drv.wrapper_check(mods, wsrc)
     for b in wbad[:4]:
         disagreements.append({"kind": "correspondence", "kernel": "K7 format_code_outer (final line break wrapper) on real strings",
@@ -198,21 +253,44 @@ def check(run: common.Run):
                                   "case": {"which": which, "max_iter": mi, "passes": len(calls), "out": out}})
     hist["fix/chain bound cases"] = 3
 
+    # (d) T04.9: the kinds of constants the bound analysis of simplify_boolean_expressions admits / CPython's ordering
+    kobs, kcoq = kind_guard_cases(mods)
+    bad, errs = drv.run_simple_cases(wd, "kinds", "kind_case", "kind_case_ok", kcoq)
+    disagreements += errs
+    for i in bad:
+        disagreements.append({"kind": "correspondence", "kernel": "K7 bound_admitted / orderable (T04.9: isinstance guard of "
+                              "symbolic_math.simplify_boolean_expressions, CPython ordering of constant kinds)", "case": kobs[i],
+                              "explanation": "the set of constant kinds collected as bounds (or CPython's ordering between kinds) "
+                                             "differs from DriverModel.v: T04.9 no longer speaks about the code"})
+    hist["bound-kind cases"] = len(kcoq)
+
     # ---- sweep (not proof)
     fam = sw.build_corpus(run.tier)
-    budget = 80 if run.tier == "quick" else 1500
+    budget = 110 if run.tier == "quick" else 1800
     deadline = time.time() + budget
     jobs, meta = [], {}
     step = {"quick": {"constants": 2, "functions": 3, "repo": 6, "constructs": 1, "blank_runs": 3}, "thorough": {}}[run.tier]
     extra = [w for ws in list(WITNESS.values()) + list(FIXED_WITNESS.values()) for w in ws]
     fam["witnesses"] = extra
-    for name in ("witnesses", "tiny", "unorderable", "first_statement", "oneline_compound", "decorated_constant", "compile_only",
+    from . import drv_hunt as dh
+    if run.tier == "quick":
+        fam["hetero_bounds_all"] = fam["hetero_bounds"]
+        fam["hetero_bounds"] = [s for s in fam["hetero_bounds"] if s in dh.HETERO_CORE]
+        fam["type_confusion"] = fam["type_confusion"][::3]
+        fam["continuations"] = fam["continuations"][:2] + fam["continuations"][2::2]      # C03 runs all of them
+    for name in ("witnesses", "hetero_bounds", "continuations", "type_confusion", "tiny", "unorderable", "first_statement", "oneline_compound", "decorated_constant", "compile_only",
                  "imports", "resources", "aggregates", "invalid", "indented", "tabs", "eof", "constructs", "constants",
                  "functions", "repo", "blank_runs", "alias_chains"):
         srcs = fam[name][::step.get(name, 1)]
         for i, s in enumerate(srcs):
-            if run.tier == "thorough" or name in ("witnesses", "invalid", "indented", "tabs", "eof"):
+            if run.tier == "thorough" and name == "hetero_bounds":      # the basic product first: 4 combinations; the rest: 1
+                combos = [sw.OPTION_COMBOS[j] for j in ((0, 2, 4, 6) if i < 18500 else ((i % 4) * 2,))]
+            elif run.tier == "thorough" or name in ("witnesses", "invalid", "indented", "tabs", "eof"):
                 combos = sw.OPTION_COMBOS
+            elif name == "hetero_bounds":  # all 4 safe / keep_imports combinations in the thorough tier, one (rotating) here
+                combos = [sw.OPTION_COMBOS[(i % 4) * 2]]
+            elif name == "continuations":
+                combos = [sw.OPTION_COMBOS[(0, 6, 3, 5)[i % 4]]]
             elif name == "imports":        # keep_imports decides whether the import tracers run
                 combos = [sw.OPTION_COMBOS[j] for j in (0, 2, 5, 7)]
             elif name in ("tiny", "first_statement", "oneline_compound", "decorated_constant", "compile_only"):
@@ -227,9 +305,28 @@ def check(run: common.Run):
                 jid = len(jobs)
                 jobs.append((jid, s, o, 1))
                 meta[jid] = name
+    # the rules that order / evaluate constants, called directly (what an earlier stage of format_code rewrites never
+    # reaches them otherwise): every rule of symbolic_math on the heterogeneous-bound family (quick tier: the
+    # bound analysis on the whole operator^2 x type^2 square, the other rules on its core third), the constant
+    # consumers on the type-confusion family
+    rule_jobs: list[int] = []
+    for name, rules, srcs in (
+            ("hetero_bounds", dh.SYMBOLIC_MATH_RULES[:1], fam.get("hetero_bounds_all", fam["hetero_bounds"])),
+            ("hetero_bounds", dh.SYMBOLIC_MATH_RULES[1:], fam["hetero_bounds"]),
+            ("type_confusion", dh.TYPE_CONFUSION_RULES, fam["type_confusion"])):
+        srcs = [s_ for s_ in srcs if sw.valid(s_)]
+        for rname in rules:
+            for k in range(0, len(srcs), 100):          # batches: one pipe round trip per 100 calls of ~1 ms
+                jid = len(jobs)
+                jobs.append((jid, srcs[k:k + 100], rname, 1))
+                meta[jid] = name
+                rule_jobs.append(jid)
+    # order: witnesses + heterogeneous bounds through format_code, then the (cheap) rule batches, then the rest
+    n_head = sum(1 for j in jobs if meta[j[0]] in ("witnesses", "hetero_bounds") and not isinstance(j[2], str))
+    order = jobs[:n_head] + [jobs[j] for j in rule_jobs] + [j for j in jobs[n_head:] if j[0] not in set(rule_jobs)]
     workers = sw.Workers(min(8, common.NCPU))
     try:
-        results = workers.run(jobs, soft=60, hard=90, deadline=deadline)
+        results = workers.run(order, soft=60, hard=90, deadline=deadline)
     finally:
         workers.close()
     sweep = Counter()
@@ -241,6 +338,33 @@ def check(run: common.Run):
         src, opts = jobs[jid][1], jobs[jid][2]
         if r.get("skipped"):
             sweep["skipped (time budget)"] += 1
+            continue
+        if isinstance(opts, str):        # a batch of sources handed to one rule directly
+            batch = r.get("batch") or []
+            sweep[f"rule runs:{name}"] += len(batch)
+            items = [(src[k], b) for k, b in enumerate(batch) if b]
+            if r.get("timeout") and len(batch) < len(src):
+                items.append((src[len(batch)], {"type": "Timeout", "msg": "no result within the timeout", "frames": [], "inner": opts}))
+            elif r["error"]:
+                items.append((src[min(len(batch), len(src) - 1)], r["error"]))
+            for one, e in items:
+                sweep["rule raised / timed out"] += 1
+                key = ("rule", e["type"], opts)
+                if key in unmatched:
+                    continue
+                # failing-input search: the same module through the real format_code, every option combination
+                via = None
+                for o in sw.OPTION_COMBOS:
+                    e2 = run_one(mods, one, o)
+                    if e2 is not None:
+                        via = {"options": o, "error": {k: e2[k] for k in ("type", "msg", "stage", "inner")}}
+                        break
+                unmatched[key] = {"kind": "sweep", "what": f"{opts} raised {e['type']} on a valid module: {e['msg']}"
+                                  + ("; format_code raises as well" if via else "; format_code calls the rule unguarded "
+                                     "(here an earlier stage rewrites the input first)"),
+                                  "site": e.get("inner") or opts, "stage": opts, "frames": e.get("frames"),
+                                  "case": {"source": one, "rule": opts, "options": via["options"] if via else None,
+                                           "format_code": via}}
             continue
         sweep[f"runs:{name}"] += 1
         slowest = max(slowest, r.get("wall", 0.0))
@@ -309,7 +433,7 @@ def check(run: common.Run):
                        "explanation": "a property theorem no longer checks"}, have_input)
 
     run.coverage.update(
-        evaluations=fc["evaluations"] + hist["early-return cases"] + 3 + n_wrap,
+        evaluations=fc["evaluations"] + hist["early-return cases"] + 3 + n_wrap + len(kcoq),
         distinct_nontrivial=fc["distinct"],
         rule=("correspondence cases: main.format_code with every stage replaced by a table lookup: all f : 4 -> 4 on "
               "one stage of _multi_run_fixes x start x safe x keep_imports x {module, indented fragment} (quick: 1/4 "
@@ -325,7 +449,7 @@ def check(run: common.Run):
         n_multi_stages=fc.get("n_multi"),
         stage_application_bound=(2 * tb["MAX_FILE_PASSES"] * fc["n_multi"] + 16) if fc.get("n_multi") else None,
         correspondence_disagreements=len(disagreements) + n_more,
-        sweep=dict(sweep) | {"jobs": len(jobs), "slowest_call_s": slowest, "timeout_s": 60,
+        sweep=dict(sweep) | {"jobs": len(jobs), "rule_batches": len(rule_jobs), "slowest_call_s": slowest, "timeout_s": 60,
                              "corpus": {k: len(v) for k, v in fam.items()},
                              "note": "format_code in isolated forked workers (SIGALRM soft limit, hard kill); all 8 option "
                                      "combinations on witnesses/invalid/indented/tabs/EOF inputs, 4 on constructs, 1 "
@@ -352,8 +476,18 @@ def replay(path: str) -> int:
     kind = data.get("kind")
     if kind in ("sweep", "fixed-witness", "property-oracle") and "source" in data.get("case", {}):
         c = data["case"]
-        e = run_one(mods, c["source"], c.get("options"))
-        print("now:", "returns normally" if e is None else e)
+        if c.get("rule"):
+            m, a = c["rule"].split(".")
+            mods["core"].parse.cache_clear()
+            try:
+                with common.quiet():
+                    getattr(mods[m], a)(c["source"])
+                print("rule now: returns normally")
+            except Exception as e:  # noqa
+                print("rule now:", type(e).__name__, e)
+        if not c.get("rule") or c.get("options"):
+            e = run_one(mods, c["source"], c.get("options"))
+            print("format_code now:", "returns normally" if e is None else e)
     elif kind == "correspondence" and "script" in data:
         env = drv.Env(mods)
         env.install()
